@@ -142,6 +142,32 @@ def s30(rng):
     return lt, cfg, h, True
 
 
+@scen("a_ani/GAUSSIAN_TAN_RAD of zero width, another population with scatter")
+def s35(rng):
+    # the degenerate tangential-to-radial population: every draw is 1 - a_ani^2 (the quantity the scaling is tabulated in),
+    # while the mass-sheet population keeps the lens non-sharp
+    lt = rng.choice(["IFUKinCov", "DdtGaussKin", "DdtDdGaussian"])
+    cfg, h = base_cfg(rng, lt)
+    cfg.update(anisotropy_model=rng.choice(["const", "OM"]), anisotropy_sampling=True, anisotropy_distribution="GAUSSIAN_TAN_RAD",
+               lambda_mst_distribution="GAUSSIAN", mst_ifu=False)
+    cfg["_grid"] = (["a_ani"], [np.linspace(0.05, 1.2, 6)])
+    h["kwargs_kin"].update(a_ani=rng.choice([0.8, 0.7, 0.9]), a_ani_sigma=0.0)
+    h["kwargs_lens"].update(lambda_mst_sigma=0.05)
+    return lt, cfg, h, True
+
+
+@scen("a_ani/GAUSSIAN_TAN_RAD of zero width, nothing else scattered")
+def s36(rng):
+    lt = rng.choice(["IFUKinCov", "DdtGaussKin", "DdtDdGaussian"])
+    cfg, h = base_cfg(rng, lt)
+    cfg.update(anisotropy_model=rng.choice(["const", "OM"]), anisotropy_sampling=True, anisotropy_distribution="GAUSSIAN_TAN_RAD")
+    cfg["_grid"] = (["a_ani"], [np.linspace(0.05, 1.2, 6)])
+    h["kwargs_kin"].update(a_ani=rng.choice([0.8, 0.7, 0.9]))
+    if rng.random() < 0.5:
+        h["kwargs_kin"]["a_ani_sigma"] = 0.0      # (omitted otherwise: the documented default is 0)
+    return lt, cfg, h, False
+
+
 @scen("re-draws: a_ani GAUSSIAN_SCALED near the grid edge")
 def s31(rng):
     # every re-draw of a truncated population comes from the SAME declared population (mean a, spread sigma*a)
@@ -481,6 +507,18 @@ def oracle(case, runs):
     n = case["cfg"]["num_distribution_draws"]
     if "err" in o1 or "err" in o2:
         return ["raised %s" % (o1.get("err") or o2.get("err"))]
+    cfg_, h_ = case["cfg"], case["hyper"]
+    if cfg_.get("anisotropy_distribution") == "GAUSSIAN_TAN_RAD" and "a_ani" in (cfg_.get("kin_scaling_param_list") or []):
+        # the anisotropy handed to the kinematic scaling is 1 - z^2 with z a draw of the declared N(a_ani, a_ani_sigma) —
+        # for a population of zero width: 1 - a_ani^2 itself (the limit of the draws, not the raw ratio)
+        mean, sg = h_["kwargs_kin"]["a_ani"], h_["kwargs_kin"].get("a_ani_sigma", 0.0)
+        zs = [z for (loc, sc, z) in r1.normals if loc == mean and sc == sg]
+        for kwp, _ in r1.kin:
+            v = float(np.squeeze(kwp["a_ani"]))
+            if not (any(close(v, 1 - z * z, 1e-12) for z in zs) or (sg == 0 and close(v, 1 - mean * mean, 1e-12))):
+                fails.append("tangential-to-radial anisotropy: the scaling was evaluated at a_ani = %r, which is not 1 - z^2 for a draw z of "
+                             "N(%r, %r)%s" % (v, mean, sg, " (zero width: 1 - a_ani^2 = %r)" % (1 - mean * mean) if sg == 0 else ""))
+                break
     if case["applicable"] is None:
         # no expectation about WHICH branch is taken; the two branches themselves must be what they claim to be
         if len(r1.data) == 1 and o1["value"] != o2["value"]:
